@@ -1,9 +1,189 @@
-(* C05/Props.v -- property theorems only. *)
-From Coq Require Import ZArith List Bool Arith.
-From PV Require Import C05.Model C05.Spec C05.Proofs.
+(* C05/Props.v -- property theorems only.  Every theorem holds for EVERY argsort oracle that returns a sorting
+   permutation (NumPy's default argsort is not stable; nothing more is assumed of it), for all templates,
+   whitening inverses, geometries, shank vectors, neighbourhood sizes, thresholds and requests: no size bound.
+   Templates are lists of columns; the threshold fraction is p/q (Model.v). *)
+From Coq Require Import ZArith List Bool Arith Permutation.
+From PV Require Import Base.NpSort C05.Model C05.Spec C05.Proofs C05.Proofs2 C05.Proofs3.
 Import ListNotations.
 Open Scope Z_scope.
 
+(* the oracle hypothesis is satisfiable: the stable insertion argsort (used by Corr.v) is such an oracle *)
+Theorem C05_argsort_oracle_exists : Argsort_ok stable_argsort.
+Proof. exact stable_argsort_ok. Qed.
+Print Assumptions C05_argsort_oracle_exists.
+
+(* "the (optionally unwhitened) template" of a request is one definite matrix *)
+Theorem C05_full_template_unique : forall d r T T', Full_template d r T -> Full_template d r T' -> T = T'.
+Proof. exact Full_template_unique. Qed.
+Print Assumptions C05_full_template_unique.
+
+(* ---- dense storage ----------------------------------------------------------------------------------------- *)
+(* Dense storage, no explicit list: best_channel is a peak channel and the listed channels are exactly those
+   among a set of the n nearest channels of the peak channel, on its shank, whose amplitude reaches p/q of the peak. *)
+Theorem C05_dense_channels : forall argsort, Argsort_ok argsort -> forall d r rec,
+  d_cols d = None -> 0 <= d_nclosest d -> r_chans r = None -> get_template argsort d r = Some rec ->
+  exists T, Full_template d r T /\ Peak T (t_best rec) /\
+    Dense_channels (d_pos d) (d_shanks d) (d_nclosest d) (req_thr d r) T (t_best rec) (t_channels rec).
+Proof.
+  intros argsort AS d r rec Hc Hn Hr H. unfold get_template in H. rewrite Hc in H.
+  destruct (dense_spec argsort AS d r rec Hn H) as (T & H1 & _ & _ & H4 & H5). rewrite Hr in H5.
+  exists T. tauto.
+Qed.
+Print Assumptions C05_dense_channels.
+
+(* ... or the caller's explicit list, in the caller's order *)
+Theorem C05_dense_explicit : forall argsort, Argsort_ok argsort -> forall d r rec l,
+  d_cols d = None -> 0 <= d_nclosest d -> r_chans r = Some l -> get_template argsort d r = Some rec ->
+  t_channels rec = map Z.to_nat l /\ Forall (fun c => 0 <= c < Z.of_nat (length (d_pos d))) l.
+Proof.
+  intros argsort AS d r rec l Hc Hn Hr H. unfold get_template in H. rewrite Hc in H.
+  destruct (dense_spec argsort AS d r rec Hn H) as (T & _ & _ & _ & _ & H5). now rewrite Hr in H5.
+Qed.
+Print Assumptions C05_dense_explicit.
+
+(* Column j of the returned waveform is the (optionally unwhitened) template on the j-th listed channel and
+   entry j of the amplitude vector is that column's peak-to-peak amplitude -- with or without an explicit list. *)
+Theorem C05_dense_aligned : forall argsort, Argsort_ok argsort -> forall d r rec,
+  d_cols d = None -> 0 <= d_nclosest d -> get_template argsort d r = Some rec ->
+  exists T, Full_template d r T /\ Aligned T rec.
+Proof.
+  intros argsort AS d r rec Hc Hn H. unfold get_template in H. rewrite Hc in H.
+  destruct (dense_spec argsort AS d r rec Hn H) as (T & H1 & _ & H3 & _). exists T. tauto.
+Qed.
+Print Assumptions C05_dense_aligned.
+
+(* Distinct channels, non-increasing amplitudes, the peak channel listed, maximal over ALL channels, and the first
+   listed channel has the peak amplitude. *)
+Theorem C05_sorted : forall argsort, Argsort_ok argsort -> forall d r rec,
+  d_cols d = None -> 0 <= d_nclosest d -> r_chans r = None -> get_template argsort d r = Some rec ->
+  exists T, Full_template d r T /\ Sorted_rec T rec.
+Proof.
+  intros argsort AS d r rec Hc Hn Hr H. unfold get_template in H. rewrite Hc in H.
+  destruct (dense_spec argsort AS d r rec Hn H) as (T & H1 & _ & _ & _ & H5). rewrite Hr in H5.
+  exists T. tauto.
+Qed.
+Print Assumptions C05_sorted.
+
+(* the guard under which the dense path returns a record: loaded-state shapes, pairwise distinct positions,
+   threshold fraction in [0, 1], explicit ids in range *)
+Theorem C05_dense_defined : forall argsort, Argsort_ok argsort -> forall d r cols,
+  d_cols d = None -> nth_error (d_templates d) (r_tid r) = Some cols ->
+  length cols = length (d_pos d) -> length (d_wmi d) = length (d_pos d) -> length (d_shanks d) = length (d_pos d) ->
+  NoDup (d_pos d) -> (0 < length (d_pos d))%nat -> 0 <= d_nclosest d ->
+  0 <= tp (req_thr d r) <= tq (req_thr d r) ->
+  match r_chans r with Some l => Forall (fun c => 0 <= c < Z.of_nat (length (d_pos d))) l | None => True end ->
+  exists rec, get_template argsort d r = Some rec.
+Proof.
+  intros argsort AS d r cols Hc. unfold get_template. rewrite Hc. now apply dense_defined.
+Qed.
+Print Assumptions C05_dense_defined.
+
+(* ---- sparse storage ---------------------------------------------------------------------------------------- *)
+(* With sparse storage the listed channels are the stored channels of the template's row minus unused (-1) and
+   signal-free ones: sigma lists the kept storage positions in the order of the record. *)
+Theorem C05_sparse_channels : forall argsort, Argsort_ok argsort -> forall d table r rec cols chans,
+  d_cols d = Some table -> nth_error (d_templates d) (r_tid r) = Some cols -> nth_error table (r_tid r) = Some chans ->
+  get_template argsort d r = Some rec ->
+  (forall c, In c (t_channels rec) <->
+             exists i, In i (kept_positions cols chans) /\ c = chan_at chans i) /\
+  (forall c, In c (t_channels rec) -> (c < length (d_pos d))%nat).
+Proof.
+  intros argsort AS d table r rec cols chans Hc E1 E2 H. unfold get_template in H. rewrite Hc in H.
+  destruct (sparse_spec argsort AS d table r rec cols chans E1 E2 H) as (_ & Hlt & sigma & [Hp Hch] & _).
+  split; [|exact Hlt]. intros c. rewrite Hch, in_map_iff. split.
+  - intros (i & <- & Hi). exists i. split; [now apply (Permutation_in _ Hp)|reflexivity].
+  - intros (i & Hi & ->). exists i. split; [reflexivity|now apply (Permutation_in _ (Permutation_sym Hp))].
+Qed.
+Print Assumptions C05_sparse_channels.
+
+(* Column j / amplitude j belong to the j-th listed channel: one permutation sigma of the kept storage positions
+   gives the channel list, the columns (unwhitened on the sub-matrix of the kept channels) and the amplitudes. *)
+Theorem C05_sparse_aligned : forall argsort, Argsort_ok argsort -> forall d table r rec cols chans,
+  d_cols d = Some table -> nth_error (d_templates d) (r_tid r) = Some cols -> nth_error table (r_tid r) = Some chans ->
+  get_template argsort d r = Some rec ->
+  exists sigma, Sparse_channels cols chans sigma rec /\ Sparse_aligned (d_wmi d) cols chans (r_unwhiten r) sigma rec.
+Proof.
+  intros argsort AS d table r rec cols chans Hc E1 E2 H. unfold get_template in H. rewrite Hc in H.
+  destruct (sparse_spec argsort AS d table r rec cols chans E1 E2 H) as (_ & _ & sigma & H1 & H2 & _).
+  exists sigma. tauto.
+Qed.
+Print Assumptions C05_sparse_aligned.
+
+(* Non-increasing amplitudes, the peak channel listed at a position of maximal amplitude, the first amplitude maximal,
+   and distinct channels whenever the kept stored channels are distinct. *)
+Theorem C05_sparse_sorted : forall argsort, Argsort_ok argsort -> forall d table r rec cols chans,
+  d_cols d = Some table -> nth_error (d_templates d) (r_tid r) = Some cols -> nth_error table (r_tid r) = Some chans ->
+  get_template argsort d r = Some rec -> Sparse_sorted cols chans rec.
+Proof.
+  intros argsort AS d table r rec cols chans Hc E1 E2 H. unfold get_template in H. rewrite Hc in H.
+  destruct (sparse_spec argsort AS d table r rec cols chans E1 E2 H) as (_ & _ & sigma & _ & _ & H3). exact H3.
+Qed.
+Print Assumptions C05_sparse_sorted.
+
+(* the guard under which the sparse path returns: at least one kept column, kept entries valid channel ids
+   (an all-zero or fully unused row makes phylib raise: argmax of an empty sequence) *)
+Theorem C05_sparse_defined : forall argsort d table r cols chans,
+  d_cols d = Some table -> nth_error (d_templates d) (r_tid r) = Some cols -> nth_error table (r_tid r) = Some chans ->
+  length cols = length chans ->
+  (forall i, In i (kept_positions cols chans) -> 0 <= nth i chans 0 < Z.of_nat (length (d_pos d))) ->
+  kept_positions cols chans <> [] ->
+  exists rec, get_template argsort d r = Some rec.
+Proof.
+  intros argsort d table r cols chans Hc. unfold get_template. rewrite Hc. now apply sparse_defined.
+Qed.
+Print Assumptions C05_sparse_defined.
+
+(* ---- the boolean checkers that judge observed records imply the declarative clauses ------------------------ *)
 Theorem C05_aligned_checker_sound : forall T r, aligned_b T r = true -> Aligned T r.
 Proof. exact aligned_b_sound. Qed.
 Print Assumptions C05_aligned_checker_sound.
+
+Theorem C05_sorted_checker_sound : forall T r, sorted_b T r = true -> Sorted_rec T r.
+Proof. exact sorted_b_sound. Qed.
+Print Assumptions C05_sorted_checker_sound.
+
+(* ---- non-vacuity: the input of the repaired defect (DESIGN.md section 9), evaluated ----------------------------- *)
+Definition ex_ds (cols : option (list (list Z))) : dataset :=
+  mkds [ [[0; 5; 0]; [0; 3; 0]; [0; 9; 0]; [0; 7; 0]]; [[0; 0; 1]; [0; 1; 1]; [0; 1; 1]; [0; 1; 1]] ]
+       cols
+       [[0; 2; 0; 0]; [1; 0; 0; 0]; [0; 0; 0; -1]; [0; 0; 4; 0]]
+       [mkpos 0 0; mkpos 0 20; mkpos 0 40; mkpos 0 60] [0; 1; 1; 1] 2 (mkthr 0 1).
+
+(* dense, unwhitened: amplitudes of the 4 channels are 3, 10, 28, 9; peak = channel 2; its 2 nearest channels are
+   {2, 1} or {2, 3} (distance tie): the stable oracle picks 1; amplitude is aligned with [2; 1] *)
+Example C05_ex_dense :
+  get_template stable_argsort (ex_ds None) (mkreq 0 None None true) =
+  Some (mkrec [[0; 28; 0]; [0; 10; 0]] [28; 10] 2 [2; 1]%nat).
+Proof. vm_compute. reflexivity. Qed.
+Example C05_ex_dense_whitened_threshold :
+  get_template stable_argsort (ex_ds None) (mkreq 0 None (Some (mkthr 1 4)) false) =
+  Some (mkrec [[0; 9; 0]; [0; 3; 0]] [9; 3] 2 [2; 1]%nat).
+Proof. vm_compute. reflexivity. Qed.
+Example C05_ex_explicit :
+  get_template stable_argsort (ex_ds None) (mkreq 0 (Some [1; 0; 1]) None false) =
+  Some (mkrec [[0; 3; 0]; [0; 5; 0]; [0; 3; 0]] [3; 5; 3] 2 [1; 0; 1]%nat).
+Proof. vm_compute. reflexivity. Qed.
+Example C05_ex_explicit_out_of_range :
+  get_template stable_argsort (ex_ds None) (mkreq 0 (Some [1; 4]) None false) = None.
+Proof. vm_compute. reflexivity. Qed.
+Example C05_ex_dense_premises :
+  d_cols (ex_ds None) = None /\ 0 <= d_nclosest (ex_ds None) /\ NoDup (d_pos (ex_ds None)).
+Proof. repeat split; try (vm_compute; congruence). repeat constructor; cbn; intuition congruence. Qed.
+(* sparse: row [3; 1; -1; 0] of the column table: column 2 is unused, the others are kept *)
+Example C05_ex_sparse :
+  get_template stable_argsort (ex_ds (Some [[3; 1; -1; 0]; [0; 1; 2; 3]])) (mkreq 0 None None false) =
+  Some (mkrec [[0; 7; 0]; [0; 5; 0]; [0; 3; 0]] [7; 5; 3] 0 [0; 3; 1]%nat).
+Proof. vm_compute. reflexivity. Qed.
+Example C05_ex_sparse_unwhitened :
+  get_template stable_argsort (ex_ds (Some [[3; 1; -1; 0]; [0; 1; 2; 3]])) (mkreq 0 None None true) =
+  Some (mkrec [[0; 14; 0]; [0; 3; 0]; [0; 0; 0]] [14; 3; 0] 1 [1; 0; 3]%nat).
+Proof. vm_compute. reflexivity. Qed.
+Example C05_ex_sparse_kept :
+  kept_positions [[0; 5; 0]; [0; 3; 0]; [0; 9; 0]; [0; 7; 0]] [3; 1; -1; 0] = [0; 1; 3]%nat.
+Proof. vm_compute. reflexivity. Qed.
+(* an all-zero sparse template: phylib raises, the model returns None *)
+Example C05_ex_sparse_zero :
+  get_template stable_argsort
+    (mkds [[[0; 0]; [0; 0]]; [[1; 0]; [0; 2]]] (Some [[0; 1]; [1; 0]]) [[1; 0]; [0; 1]] [mkpos 0 0; mkpos 0 20] [0; 0] 12 (mkthr 0 1))
+    (mkreq 0 None None true) = None.
+Proof. vm_compute. reflexivity. Qed.
